@@ -3,19 +3,19 @@
    the assumption audit. All theorems are about Model.Linker (hand model, tie H, compared with
    ppci.binutils.linker on every run by tools/props/c12.py).
 
-   link_trace objs lay partial entry extra = Ok (out, ts):
+   link_trace cfg objs lay partial entry extra = Ok (out, ts):
      out = the linked object after check_undefined_symbols,
      ts  = per input object what inject_object recorded: (section_offsets in section order, new symbol ids).
    Vocabulary (Spec/LinkSpec.v): aligned, bytes_at, contribution_at, least_aligned_from, mem_byte,
    ordered_from, end_of. *)
-From PV Require Import Lib.Py Spec.LinkSpec Model.Linker Proofs.C12_linker.
+From PV Require Import Lib.Py Spec.LinkSpec Model.Linker Proofs.C12_linker Proofs.C12_errors Proofs.C12_e2e.
 From Coq Require Import String.
 Open Scope Z_scope.
 
 (* ---- inject_object: offsets, padding, contents *)
 Theorem c12_offsets_aligned :
-  forall objs lay partial entry extra out ts i o t j s rec,
-  link_trace objs lay partial entry extra = Ok (out, ts) ->
+  forall cfg objs lay partial entry extra out ts i o t j s rec,
+  link_trace cfg objs lay partial entry extra = Ok (out, ts) ->
   nth_error objs i = Some o -> nth_error ts i = Some t ->
   nth_error (o_sects o) j = Some s -> nth_error (fst t) j = Some rec ->
   fst rec = s_name s /\ aligned (snd rec) (s_align s).
@@ -26,8 +26,8 @@ Print Assumptions c12_offsets_aligned.
    name, preceded by the minimal run of zero bytes that reaches a multiple of its alignment; nothing
    before it was touched; the output alignment is at least the input's *)
 Theorem c12_contents_preserved :
-  forall objs lay partial entry extra out ts,
-  link_trace objs lay partial entry extra = Ok (out, ts) ->
+  forall cfg objs lay partial entry extra out ts,
+  link_trace cfg objs lay partial entry extra = Ok (out, ts) ->
   List.length ts = List.length objs /\
   forall i o t, nth_error objs i = Some o -> nth_error ts i = Some t ->
     List.length (fst t) = List.length (o_sects o) /\
@@ -45,14 +45,16 @@ Print Assumptions c12_contribution_meaning.
 
 (* ---- symbols and relocations *)
 Theorem c12_symbols_shifted :
-  forall objs lay partial entry extra out ts i o t k sy id v,
-  link_trace objs lay partial entry extra = Ok (out, ts) ->
+  forall cfg objs lay partial entry extra out ts i o t k sy id v,
+  link_trace cfg objs lay partial entry extra = Ok (out, ts) ->
   nth_error objs i = Some o -> nth_error ts i = Some t ->
   nth_error (o_syms o) k = Some sy -> nth_error (snd t) k = Some id -> y_value sy = Some v ->
-  exists sc off ds, y_sect sy = Some sc /\ lookup sc (fst t) = Some off /\
-    0 <= id /\ nth_error (o_syms out) (Z.to_nat id) = Some ds /\ y_id ds = id /\
+  exists ds, 0 <= id /\ nth_error (o_syms out) (Z.to_nat id) = Some ds /\ y_id ds = id /\
     y_name ds = y_name sy /\ y_bind ds = y_bind sy /\
-    y_value ds = Some (off + v) /\ y_sect ds = Some sc.
+    ((exists sc off, y_sect sy = Some sc /\ lookup sc (fst t) = Some off /\
+                     y_value ds = Some (off + v) /\ y_sect ds = Some sc) \/
+     (* absolute symbol, only with fixes/C12-2 *)
+     (fix_abs cfg = true /\ y_sect sy = None /\ y_value ds = Some v /\ y_sect ds = None)).
 Proof. exact c12_symbols. Qed.
 Print Assumptions c12_symbols_shifted.
 
@@ -65,8 +67,8 @@ Proof. exact lookup_unique. Qed.
 Print Assumptions c12_symbol_offset_is_section_offset.
 
 Theorem c12_symbols_present :
-  forall objs lay partial entry extra out ts i o t k sy,
-  link_trace objs lay partial entry extra = Ok (out, ts) ->
+  forall cfg objs lay partial entry extra out ts i o t k sy,
+  link_trace cfg objs lay partial entry extra = Ok (out, ts) ->
   nth_error objs i = Some o -> nth_error ts i = Some t ->
   nth_error (o_syms o) k = Some sy ->
   exists id ds, nth_error (snd t) k = Some id /\ nth_error (o_syms out) (Z.to_nat id) = Some ds /\
@@ -75,8 +77,8 @@ Proof. exact c12_symbols_present. Qed.
 Print Assumptions c12_symbols_present.
 
 Theorem c12_relocations_shifted :
-  forall objs lay partial entry extra out ts i o t,
-  link_trace objs lay partial entry extra = Ok (out, ts) ->
+  forall cfg objs lay partial entry extra out ts i o t,
+  link_trace cfg objs lay partial entry extra = Ok (out, ts) ->
   nth_error objs i = Some o -> nth_error ts i = Some t ->
   exists pre rels post, o_relocs out = pre ++ rels ++ post /\
                         Forall2 (reloc_shifted t o) (o_relocs o) rels.
@@ -85,8 +87,8 @@ Print Assumptions c12_relocations_shifted.
 
 (* ---- layout: needs "no section is placed twice" (see the refutation below) *)
 Theorem c12_layout_aligned_in_region_disjoint :
-  forall objs l entry extra out ts,
-  link_trace objs (Some l) false entry extra = Ok (out, ts) ->
+  forall cfg objs l entry extra out ts,
+  link_trace cfg objs (Some l) false entry extra = Ok (out, ts) ->
   NoDup (all_placed (l_mems l)) ->
   Forall2 (fun m img =>
     let ss := resolve (o_sects out) (i_sects img) in
@@ -101,7 +103,22 @@ Theorem c12_layout_aligned_in_region_disjoint :
 Proof. exact c12_layout. Qed.
 Print Assumptions c12_layout_aligned_in_region_disjoint.
 
-(* without the hypothesis: a section listed in two memories makes the first image overflow its
+(* with fixes/C12-1 (a section placed twice is a CompilerError) the hypothesis follows from the
+   success of the link *)
+Theorem c12_layout_no_section_placed_twice :
+  forall cfg objs l entry extra out ts, fix_twice cfg = true ->
+  link_trace cfg objs (Some l) false entry extra = Ok (out, ts) -> NoDup (all_placed (l_mems l)).
+Proof. exact link_trace_fixed_nodup. Qed.
+Print Assumptions c12_layout_no_section_placed_twice.
+
+Theorem c12_layout_aligned_in_region_disjoint_fixed :
+  forall cfg objs l entry extra out ts, fix_twice cfg = true ->
+  link_trace cfg objs (Some l) false entry extra = Ok (out, ts) ->
+  Forall2 (placed_ok out) (l_mems l) (o_images out).
+Proof. exact c12_layout_fixed. Qed.
+Print Assumptions c12_layout_aligned_in_region_disjoint_fixed.
+
+(* without the hypothesis (code as found): a section listed in two memories makes the first image overflow its
    memory although the link succeeds (replayed on the implementation by tools/props/c12.py) *)
 Definition w_obj : obj :=
   mkObj [mkSect "code" 0 4 [1; 2; 3; 4]] [mkSym 0 "main" "global" (Some 0) (Some "code"%string) "func" 0] [] [] None.
@@ -110,11 +127,16 @@ Definition w_twice : layout :=
 
 Theorem c12_layout_section_placed_twice_refuted :
   exists out ts img bytes,
-    link_trace [w_obj] (Some w_twice) false None [] = Ok (out, ts) /\
+    link_trace (mk_lcfg false false) [w_obj] (Some w_twice) false None [] = Ok (out, ts) /\
     nth_error (o_images out) 0 = Some img /\ i_name img = "flash"%string /\
     image_data (o_sects out) img = Ok bytes /\ len bytes = 516 /\ 516 > 256.
 Proof. do 4 eexists. vm_compute. repeat split; reflexivity. Qed.
 Print Assumptions c12_layout_section_placed_twice_refuted.
+
+Theorem c12_layout_section_placed_twice_fixed_is_error :
+  link (mk_lcfg true false) [w_obj] (Some w_twice) false None [] = Diag 6.
+Proof. vm_compute. reflexivity. Qed.
+Print Assumptions c12_layout_section_placed_twice_fixed_is_error.
 
 (* a non-empty section the layout does not mention ends up in no image, at address 0, silently *)
 Definition w_two : obj :=
@@ -122,7 +144,7 @@ Definition w_two : obj :=
         [mkSym 0 "main" "global" (Some 0) (Some "code"%string) "func" 0] [] [] None.
 Theorem c12_section_never_placed_witness :
   exists out ts s,
-    link_trace [w_two] (Some (mkLayout [mkMem "flash" 256 256 [ISection "code"]] None)) false None []
+    link_trace (mk_lcfg false false) [w_two] (Some (mkLayout [mkMem "flash" 256 256 [ISection "code"]] None)) false None []
       = Ok (out, ts) /\
     find_sect "data" (o_sects out) = Some s /\ s_data s = [5; 6; 7; 8] /\ s_addr s = 0 /\
     forallb (fun img => negb (existsb (String.eqb "data") (i_sects img))) (o_images out) = true.
@@ -138,7 +160,7 @@ Print Assumptions c12_final_address_aligned.
 (* the divisibility hypothesis is needed: alignments 4 and 3 merge to max = 4 *)
 Theorem c12_final_address_non_multiple_refuted :
   exists out ts os ds,
-    link_trace [mkObj [mkSect "code" 0 4 [1]] [] [] [] None;
+    link_trace (mk_lcfg false false) [mkObj [mkSect "code" 0 4 [1]] [] [] [] None;
                 mkObj [mkSect "code" 0 3 [2]] [mkSym 0 "foo" "global" (Some 0) (Some "code"%string) "func" 0] [] [] None]
                (Some (mkLayout [mkMem "flash" 4 256 [ISection "code"]] None)) false None [] = Ok (out, ts) /\
     find_sect "code" (o_sects out) = Some os /\ nth_error (o_syms out) 0 = Some ds /\
@@ -171,8 +193,8 @@ Print Assumptions c12_loops_never_out_of_fuel.
 
 (* ---- errors *)
 Theorem c12_final_link_globals_defined :
-  forall objs lay entry extra out ts,
-  link_trace objs lay false entry extra = Ok (out, ts) ->
+  forall cfg objs lay entry extra out ts,
+  link_trace cfg objs lay false entry extra = Ok (out, ts) ->
   forall s, In s (o_syms out) -> is_global (y_bind s) = true -> y_value s <> None.
 Proof. exact link_trace_defined. Qed.
 Print Assumptions c12_final_link_globals_defined.
@@ -180,8 +202,8 @@ Print Assumptions c12_final_link_globals_defined.
 (* a link that succeeds has no global defined twice (extra symbols, input objects, layout
    SymbolDefinitions, in that order): duplicate definitions make the link fail *)
 Theorem c12_no_duplicate_definitions :
-  forall objs lay partial entry extra out ts,
-  link_trace objs lay partial entry extra = Ok (out, ts) ->
+  forall cfg objs lay partial entry extra out ts,
+  link_trace cfg objs lay partial entry extra = Ok (out, ts) ->
   NoDup (all_defs objs lay partial extra).
 Proof. exact link_trace_no_duplicate_definitions. Qed.
 Print Assumptions c12_no_duplicate_definitions.
@@ -203,13 +225,66 @@ Proof. exact check_undefined_diag. Qed.
 Print Assumptions c12_undefined_exact.
 
 Theorem c12_memory_exceeded_exact :
-  forall d m d1 cur names data,
-  layout_inputs (d, m_loc m, []) (m_inputs m) = Ok (d1, cur, names) ->
+  forall cfg d m d1 cur names data,
+  layout_inputs cfg (d, m_loc m, []) (m_inputs m) = Ok (d1, cur, names) ->
   image_data (o_sects d1) (mkImage (m_name m) (m_loc m) names) = Ok data ->
-  (layout_memory d m = Diag 4 <-> len data > m_size m) /\
-  (len data <= m_size m -> exists d', layout_memory d m = Ok d').
+  (layout_memory cfg d m = Diag 4 <-> len data > m_size m) /\
+  (len data <= m_size m -> exists d', layout_memory cfg d m = Ok d').
 Proof. exact layout_memory_size_check. Qed.
 Print Assumptions c12_memory_exceeded_exact.
+
+(* ---- whole-link outcome analysis (Proofs/C12_errors.v).
+   link_ok_post: no global defined twice (extra symbols, objects, layout SymbolDefinitions), entry name and
+     extra symbols distinct, at most one entry point, and in a final link every referenced global is defined.
+   link_diag_cause c: the cause of CompilerError code c (1 duplicate definition, 2 entry/extra-symbol clash,
+     3 several entry points, 4 an image larger than its memory, 5 an undefined global remains, 6 a section
+     placed twice (only with fixes/C12-1)).
+   wf_link: inputs on which no other exception can occur (non-empty object list, no layout in a partial link,
+     alignments non-zero, symbols/relocations/entry ids refer to sections and symbols of their object
+     (section-less defined symbols only with fixes/C12-2), SectionData sources exist, generated section names
+     are fresh, Align arguments non-zero, no section placed twice).
+   The model never runs out of fuel. *)
+Theorem c12_errors_exact :
+  forall cfg objs lay partial entry extra,
+  let r := link_trace cfg objs lay partial entry extra in
+  (forall x, r = Ok x -> link_ok_post objs lay partial entry extra) /\
+  (forall c, r = Diag c -> link_diag_cause cfg objs lay partial entry extra c) /\
+  (forall e, r = Internal e -> ~ wf_link cfg objs lay partial) /\
+  r <> OutOfFuel /\
+  (wf_link cfg objs lay partial ->
+     (exists x, r = Ok x) \/ (exists c, r = Diag c /\ link_diag_cause cfg objs lay partial entry extra c)).
+Proof. exact link_errors_exact. Qed.
+Print Assumptions c12_errors_exact.
+
+Theorem c12_ok_excludes_every_cause :
+  forall cfg objs lay partial entry extra x,
+  link_trace cfg objs lay partial entry extra = Ok x ->
+  NoDup (all_defs objs lay partial extra) /\
+  NoDup (ename_l lay entry ++ map fst extra) /\
+  (ecnt objs lay entry <= 1)%nat /\
+  (partial = false -> forall n, In n (all_refs objs lay entry) -> In n (all_defs objs lay partial extra)) /\
+  (fix_twice cfg = true -> partial = false -> forall l, lay = Some l -> NoDup (all_placed (l_mems l))).
+Proof. exact link_ok_no_cause. Qed.
+Print Assumptions c12_ok_excludes_every_cause.
+
+(* ---- end to end: the bytes of every input section are found in the memory image of the memory its
+   output section is placed in, at section.address + recorded offset (inside the memory region) *)
+Theorem c12_end_to_end_contents :
+  forall cfg objs l entry extra out ts i o t j s rec m img,
+  link_trace cfg objs (Some l) false entry extra = Ok (out, ts) ->
+  (NoDup (all_placed (l_mems l)) \/ fix_twice cfg = true) ->
+  nth_error objs i = Some o -> nth_error ts i = Some t ->
+  nth_error (o_sects o) j = Some s -> nth_error (fst t) j = Some rec ->
+  In (m, img) (combine (l_mems l) (o_images out)) -> In (s_name s) (i_sects img) ->
+  exists os bytes,
+    find_sect (s_name s) (o_sects out) = Some os /\ image_data (o_sects out) img = Ok bytes /\
+    aligned (s_addr os) (s_align os) /\
+    m_loc m <= s_addr os + snd rec /\ s_addr os + snd rec + len (s_data s) <= m_loc m + m_size m /\
+    forall k, 0 <= k < len (s_data s) ->
+      mem_byte (blocks (resolve (o_sects out) (i_sects img))) (s_addr os + snd rec + k) = nth (Z.to_nat k) (s_data s) 0 /\
+      nth (Z.to_nat (s_addr os + snd rec + k - m_loc m)) bytes 0 = nth (Z.to_nat k) (s_data s) 0.
+Proof. exact end_to_end_contents. Qed.
+Print Assumptions c12_end_to_end_contents.
 
 (* non-vacuity: a two-object link with a layout succeeds, satisfies the layout hypothesis, and the
    numbers are the expected ones *)
@@ -222,7 +297,7 @@ Example c12_nonvacuous :
   let l := mkLayout [mkMem "flash" 256 16 [ISection "code"; IAlign 16; ISymDef "e"];
                      mkMem "ram" 8192 40 [ISection "data"; ISectionData "code"]] None in
   NoDup (all_placed (l_mems l)) /\
-  exists out, link_trace [o1; o2] (Some l) false None [] =
+  exists out, link_trace (mk_lcfg true true) [o1; o2] (Some l) false None [] =
               Ok (out, [([("code"%string, 0)], [0]); ([("code"%string, 4); ("data"%string, 0)], [1; 0])]) /\
     map s_addr (o_sects out) = [256; 8192; 272; 8193] /\
     sdata "code" (o_sects out) = [1; 2; 3; 0; 9; 9; 9; 9; 9] /\
